@@ -296,6 +296,19 @@ func contains(xs []int, x int) bool {
 func runIntervalTrees(env *mc.Env) {
 	randMu.Lock()
 	defer randMu.Unlock()
+	// the seam must work: since Go 1.24 rand.Seed is a no-op unless the binary sets GODEBUG randseednop=0
+	// (cmd/pure/main.go does); without it the search would be irreproducible
+	var probe [2][4]float32
+	for r := range probe {
+		rand.Seed(12345) //nolint:staticcheck
+		for i := range probe[r] {
+			probe[r][i] = rand.Float32()
+		}
+	}
+	if probe[0] != probe[1] {
+		env.R.HarnessError("rand.Seed does not determine math/rand's global source (GODEBUG randseednop must be 0): the interval tree search is not reproducible")
+		return
+	}
 	maxPuts := mc.Pick(env, 4, 5)
 	maxSeeds := int64(mc.Pick(env, 96, 256))
 	dupSeeds := int64(mc.Pick(env, 12, 24)) // seeds tried when the expected number of outcomes is unknown
